@@ -576,17 +576,51 @@ HCPcdeflate_write(accrec_t *access_rec, int32 length, const void *data)
 
     /* Check if second stage of initialization has been performed */
     if (deflate_info->acc_init != DFACC_WRITE) {
+        uint8 *old_data = NULL; /* the data stored so far, when this write appends to it */
+        int32  old_len  = 0;
+
+        /* An append (the position is the end of a non-empty element) after a read or seek on this
+           access id, or on an element that was opened again: the stream written so far has been
+           finished by HCIcdeflate_term and cannot be continued, and restarting the deflater below
+           rewinds the stream.  Read the data back and deflate it again in front of the new bytes
+           (otherwise the appended bytes replace the whole element). */
+        if (deflate_info->offset != 0 && deflate_info->offset == info->length) {
+            old_len = info->length;
+            if ((old_data = (uint8 *)malloc((size_t)old_len)) == NULL)
+                HRETURN_ERROR(DFE_NOSPACE, FAIL);
+            if (HCIcdeflate_term(info, deflate_info->acc_init) == FAIL ||
+                HCIcdeflate_staccess2(access_rec, DFACC_READ) == FAIL || Hseek(info->aid, 0, 0) == FAIL ||
+                HCIcdeflate_decode(info, old_len, old_data) != old_len) {
+                free(old_data);
+                HRETURN_ERROR(DFE_CDECODE, FAIL);
+            }
+        }
+
         /* Terminate the previous method of access */
-        if (HCIcdeflate_term(info, deflate_info->acc_init) == FAIL)
+        if (HCIcdeflate_term(info, deflate_info->acc_init) == FAIL) {
+            free(old_data);
             HRETURN_ERROR(DFE_CTERM, FAIL);
+        }
 
         /* Restart access */
-        if (HCIcdeflate_staccess2(access_rec, DFACC_WRITE) == FAIL)
+        if (HCIcdeflate_staccess2(access_rec, DFACC_WRITE) == FAIL) {
+            free(old_data);
             HRETURN_ERROR(DFE_CINIT, FAIL);
+        }
 
         /* Go back to the beginning of the data-stream */
-        if (Hseek(info->aid, 0, 0) == FAIL)
+        if (Hseek(info->aid, 0, 0) == FAIL) {
+            free(old_data);
             HRETURN_ERROR(DFE_SEEKERROR, FAIL);
+        }
+
+        if (old_data != NULL) {
+            int32 done = HCIcdeflate_encode(info, old_len, old_data);
+
+            free(old_data);
+            if (done == FAIL)
+                HRETURN_ERROR(DFE_CENCODE, FAIL);
+        }
     } /* end if */
 
     if ((length = HCIcdeflate_encode(info, length, data)) == FAIL)
